@@ -509,37 +509,9 @@ func c10(c *core.Ctx) {
 		c.Check("filterLogsByType:selects-by-LogType", "value-flow", selOK, ff.Pos(), "filterLogsByType returns the processor's logs whose LogType equals the asked type")
 		// needMerge(VotesLog)
 		nm := c.Fn("chain/account.needMerge")
-		nmOK := false
-		for _, b := range nm.Blocks {
-			ifi := ifOf(b)
-			if ifi == nil {
-				continue
-			}
-			bo, ok := ifi.Cond.(*ssa.BinOp)
-			if !ok || bo.Op != token.EQL {
-				continue
-			}
-			x, y := bo.X, bo.Y
-			if y == nm.Params[0] {
-				x, y = y, x
-			}
-			if x != nm.Params[0] || !constEquals(y, votesLog) {
-				continue
-			}
-			all := true
-			any := false
-			for _, r := range core.Returns(nm) {
-				if reachAvoiding(b.Succs[0], nil)[r.Block()] {
-					any = true
-					if bv, isC := core.BoolConst(core.RetVal(r, 0)); !isC || !bv {
-						all = false
-					}
-				}
-			}
-			if any && all {
-				nmOK = true
-			}
-		}
+		// partial evaluation of needMerge for the constant VotesLog (if-chains, switches and write-once lookup tables are all evaluated)
+		nmv, nmEval := core.EvalConst(nm, map[int]constant.Value{0: votesLog.Val()})
+		nmOK := nmEval && nmv.Kind() == constant.Bool && constant.BoolVal(nmv)
 		c.CheckTrivial("needMerge(VotesLog)=true", "registry", nmOK, nm.Pos(), "vote logs of one candidate are merged into one log per block (the ranking takes one entry per candidate from the logs)")
 
 		// CandidatesRanking → CBlock.Ranking of the block under `hash` with the same logs
